@@ -1,5 +1,30 @@
 (* C02 — the model is the decode side of C01/Model.v (read_full over a chunk list,
    read_head_body_v1/v2, unmarshal_v1/v2, unmarshal_body, read_packet_v1/v2, read_len_data),
    with every Go bounds check explicit ([Panic]), every make recorded in [r_allocs] and every
-   buffer handed to io.ReadFull in [r_reads].  Nothing is defined or proved here. *)
+   buffer handed to io.ReadFull in [r_reads]; plus the reader pump of a connection reduced to
+   what the property speaks about.  Nothing is proved here. *)
+From Coq Require Import List.
 From FV Require Export C01.Model.
+Import ListNotations.
+
+(* qnet/tcp_conn.go readPump / readPacket: frames are read one after the other from the
+   connection's byte stream and delivered; the first error ends the loop with ForceClose(err)
+   and the reader returns — it never looks for the next frame behind a bad one.
+   [read] is one ReadHeadBody+UnmarshalPacket on a fresh packet; fuel bounds the iterations. *)
+Inductive conn_end : Type :=
+| Closed (e : rerr)     (* ForceClose(e); reader exit *)
+| Crashed               (* the decoder panicked *)
+| StillReading.         (* fuel exhausted *)
+
+Fixpoint read_pump (read : stream -> rhb packet) (fuel : nat) (s : stream)
+  : list packet * conn_end * stream :=
+  match fuel with
+  | O => ([], StillReading, s)
+  | S f =>
+      let r := read s in
+      match r_out r with
+      | Ok p => let '(ds, e, s') := read_pump read f (r_rest r) in (p :: ds, e, s')
+      | Err e => ([], Closed e, r_rest r)
+      | Panic => ([], Crashed, r_rest r)
+      end
+  end.
